@@ -838,7 +838,8 @@ class RTDCWriter:
                                  ("max", np.nanmax)]:
                 val_a = dset.attrs.get(uname, None)
                 if val_a is not None:
-                    val_b = ufunc(data)
+                    # use the stored values (`data` may have been cast)
+                    val_b = ufunc(dset[offset:])
                     val = ufunc([val_a, val_b])
                 else:
                     val = ufunc(dset)
